@@ -930,6 +930,22 @@ func rulePoolPredicate(c *Ctx, rule string) {
 	for _, g := range chainBuilders(L, fn) {
 		blocks = append(blocks, g.Blocks...)
 	}
+	// finder helpers of buildStmts (firstSyncPoolIdx(pools, ready)): their tests are decisions of buildStmts
+	bpsFam := map[*ssa.Function]bool{}
+	if bps := resolveRole(c, genPkg, "(*Graph).buildPoolStmtsSimple"); bps != nil {
+		for _, g := range family(L, bps) {
+			bpsFam[g] = true
+		}
+	}
+	inBuilders := map[*ssa.Function]bool{}
+	for _, g := range chainBuilders(L, fn) {
+		inBuilders[g] = true
+	}
+	for _, g := range family(L, fn) {
+		if g.Parent() == nil && !inBuilders[g] && !bpsFam[g] {
+			blocks = append(blocks, g.Blocks...)
+		}
+	}
 	for _, b := range blocks {
 		if len(b.Instrs) == 0 {
 			continue
